@@ -278,11 +278,35 @@ class PropCheck:
         return self.judge([(l, impl_safe(self, l), None) for l in lines]) if lines else []
 
 
+class CaseTimeout(BaseException):
+    """the implementation side of one case used up its CPU budget (BaseException: the library's and the
+    adapters' `except Exception` clauses must not swallow it)"""
+
+
+# CPU seconds (ITIMER_PROF: process time, immune to a loaded machine) the implementation may spend on ONE case.
+# Ordinary cases take milliseconds; a node-level session that runs into a DIVERGE legitimately burns a whole
+# transaction budget (about 75 s), hence the larger allowance for `net` lines.  What this catches is a loop that
+# spins without touching the SPI bus, which the transaction budget of harness/simradio.py cannot see.
+CASE_CPU_BUDGET = 60.0
+CASE_CPU_BUDGET_NET = 300.0
+
+
+def _on_sigprof(*_):
+    raise CaseTimeout()
+
+
 def impl_safe(pc: PropCheck, line: str) -> str:
+    import signal
+    signal.signal(signal.SIGPROF, _on_sigprof)
+    signal.setitimer(signal.ITIMER_PROF, CASE_CPU_BUDGET_NET if line.startswith("net ") else CASE_CPU_BUDGET)
     try:
         return pc.impl(line)
+    except CaseTimeout:
+        return "exc=SimTimeout"
     except Exception as e:  # an exception escaping the adapter is an observation, too
         return "exc=" + exc_name(e)
+    finally:
+        signal.setitimer(signal.ITIMER_PROF, 0)
 
 
 HANG_MARKS = ("exc=DIVERGE", "exc=SimTimeout")
